@@ -13,14 +13,14 @@ import (
 	"github.com/google/martian/v3/zzverif/vf"
 )
 
-type shapeRW struct {
+type zzshapeRW struct {
 	h      http.Header
 	status int
 }
 
-func (w *shapeRW) Header() http.Header         { return w.h }
-func (w *shapeRW) Write(b []byte) (int, error) { return len(b), nil }
-func (w *shapeRW) WriteHeader(s int)           { w.status = s }
+func (w *zzshapeRW) Header() http.Header         { return w.h }
+func (w *zzshapeRW) Write(b []byte) (int, error) { return len(b), nil }
+func (w *zzshapeRW) WriteHeader(s int)           { w.status = s }
 
 // VerifC18Proxy: the proxy's side of traffic shaping (proxy.go): a connection
 // accepted on a shaped listener, a configuration with one close action at byte
@@ -34,7 +34,7 @@ func VerifC18Proxy() {
 	const n = 4
 	k := vf.Choice("close-at", n+2)
 	js := `{"trafficshape": {"shapes": [{"url_regex": "example.com/shaped", "close_connections": [{"byte": ` + strconv.Itoa(k) + `, "count": 1}]}]}}`
-	w := &shapeRW{h: http.Header{}, status: 200}
+	w := &zzshapeRW{h: http.Header{}, status: 200}
 	h.ServeHTTP(w, &http.Request{Method: "POST", URL: &url.URL{Path: "/shape"}, Header: http.Header{}, Body: ioutil.NopCloser(bytes.NewReader([]byte(js)))})
 	vf.Assert(w.status == 200, "valid-configuration-accepted")
 
@@ -54,9 +54,9 @@ func VerifC18Proxy() {
 		reqWire += "Connection: close\r\n"
 	}
 	reqWire += "\r\n"
-	cc := newClientConn("client", true, []byte(reqWire))
+	cc := zznewClientConn("client", true, []byte(reqWire))
 	conn := l.GetTrafficShapedConn(cc)
-	o := &origin{}
+	o := &zzorigin{}
 	o.answer = func(i int, req *http.Request) (*http.Response, error) {
 		var b bytes.Buffer
 		if r > 0 {
@@ -66,11 +66,11 @@ func VerifC18Proxy() {
 			b.WriteString("HTTP/1.1 200 OK\r\nContent-Length: " + strconv.Itoa(n) + "\r\n\r\n")
 			b.Write(content)
 		}
-		return rawResponse(b.Bytes(), req)
+		return zzrawResponse(b.Bytes(), req)
 	}
 	p := NewProxy()
 	p.SetRoundTripper(o)
-	serveConn(p, conn)
+	zzserveConn(p, conn)
 
 	out := cc.out.Bytes()
 	idx := bytes.Index(out, []byte("\r\n\r\n"))
